@@ -160,6 +160,19 @@ def _match(pat, node, env):
         return False
     if type(pat) is not type(node):
         return False
+    if isinstance(pat, ast.Compare) and len(pat.ops) == 1 and len(node.ops) == 1 and isinstance(pat.ops[0], (ast.Eq, ast.NotEq)) and \
+            type(pat.ops[0]) is type(node.ops[0]) and not getattr(node, '_pm_swapped', False):
+        # a == b is also spelled b == a
+        saved = dict(env)
+        if _match(pat.left, node.left, env) and _match(pat.comparators[0], node.comparators[0], env):
+            return True
+        env.clear()
+        env.update(saved)
+        if _match(pat.left, node.comparators[0], env) and _match(pat.comparators[0], node.left, env):
+            return True
+        env.clear()
+        env.update(saved)
+        return False
     if isinstance(pat, ast.Constant):
         return type(pat.value) is type(node.value) and pat.value == node.value
     for field in pat._fields:
